@@ -14,16 +14,23 @@ package checks
 import (
 	"bytes"
 	"crypto/ed25519"
+	"encoding/json"
 	"fmt"
 	"math/big"
 	"math/rand"
 	"os"
 
 	g "github.com/zenon-network/go-zenon/chain/genesis/mock"
+	"github.com/zenon-network/go-zenon/chain"
 	"github.com/zenon-network/go-zenon/chain/nom"
 	"github.com/zenon-network/go-zenon/common/db"
 	"github.com/zenon-network/go-zenon/common/types"
+	"github.com/zenon-network/go-zenon/consensus"
+	"github.com/zenon-network/go-zenon/pillar"
+	"github.com/zenon-network/go-zenon/protocol"
+	"github.com/zenon-network/go-zenon/rpc/api"
 	"github.com/zenon-network/go-zenon/verifier"
+	"github.com/zenon-network/go-zenon/zenon"
 	"github.com/zenon-network/go-zenon/vm/embedded/definition"
 	"github.com/zenon-network/go-zenon/wallet"
 
@@ -113,6 +120,15 @@ func c03Valid(n *simnet.Node, b *nom.AccountBlock) string {
 	// (for a contract receive with descendants the group extends the head contiguously)
 	first := b
 	if len(b.DescendantBlocks) > 0 {
+		// only the receive block of an embedded contract carries descendants, and they are sends of that contract
+		if b.BlockType != nom.BlockTypeContractReceive || !contract {
+			return "descendants-on-a-block-that-is-not-a-contract-receive"
+		}
+		for _, d := range b.DescendantBlocks {
+			if d.Address != b.Address || d.BlockType != nom.BlockTypeContractSend {
+				return "descendant-is-not-a-contract-send-of-the-same-account"
+			}
+		}
 		first = b.DescendantBlocks[0]
 		prev := first
 		for i, d := range append(append([]*nom.AccountBlock{}, b.DescendantBlocks[1:]...), b) {
@@ -231,6 +247,7 @@ type c03Env struct {
 	owner      *wallet.KeyPair
 	attacker   *wallet.KeyPair
 	otherSend  types.Hash // a confirmed send addressed to somebody else
+	ctrSend    types.Hash // a confirmed send addressed to an embedded contract
 	doneSend   types.Hash // a send this account already received
 	otherBlock types.Hash
 }
@@ -319,6 +336,7 @@ func c03Mutations() []c03Mut {
 		{"FromBlockHash-flip", func(b *nom.AccountBlock, e *c03Env) bool { flipHash(&b.FromBlockHash, e.r); return true }},
 		{"FromBlockHash=zero", func(b *nom.AccountBlock, e *c03Env) bool { b.FromBlockHash = types.Hash{}; return true }},
 		{"FromBlockHash=send-to-somebody-else", func(b *nom.AccountBlock, e *c03Env) bool { b.FromBlockHash = e.otherSend; return !e.otherSend.IsZero() }},
+		{"FromBlockHash=send-to-a-contract", func(b *nom.AccountBlock, e *c03Env) bool { b.FromBlockHash = e.ctrSend; return !e.ctrSend.IsZero() }},
 		{"FromBlockHash=already-received", func(b *nom.AccountBlock, e *c03Env) bool { b.FromBlockHash = e.doneSend; return !e.doneSend.IsZero() }},
 		{"FromBlockHash=already-received+ack=older", func(b *nom.AccountBlock, e *c03Env) bool {
 			// the second receive acknowledges an older momentum (allowed as long as it is not older than the
@@ -345,6 +363,28 @@ func c03Mutations() []c03Mut {
 				Amount: big.NewInt(1), TokenStandard: types.ZnnTokenStandard, Height: b.Height, PreviousHash: b.PreviousHash, MomentumAcknowledged: b.MomentumAcknowledged}
 			d.Hash = d.ComputeHash()
 			b.DescendantBlocks = append(b.DescendantBlocks, d)
+			return true
+		}},
+		{"DescendantBlocks+foreign-filler-linked", func(b *nom.AccountBlock, e *c03Env) bool {
+			// a user block that carries an (unsigned) send of an embedded contract as descendant and sits on top of it
+			if len(b.DescendantBlocks) > 0 || types.IsEmbeddedAddress(b.Address) {
+				return false
+			}
+			d := c03Filler(b)
+			b.DescendantBlocks = []*nom.AccountBlock{d}
+			b.Height, b.PreviousHash = d.Height+1, d.Hash
+			return true
+		}},
+		{"DescendantBlocks+foreign-filler-unlinked", func(b *nom.AccountBlock, e *c03Env) bool {
+			// as above, but the block itself floats: height jumps, previous hash is unknown (every linkage check that keys
+			// on Previous() sees the filler's correct link instead)
+			if len(b.DescendantBlocks) > 0 || types.IsEmbeddedAddress(b.Address) {
+				return false
+			}
+			d := c03Filler(b)
+			b.DescendantBlocks = []*nom.AccountBlock{d}
+			b.Height += uint64(2 + e.r.Intn(5))
+			b.PreviousHash = types.NewHash([]byte("not a block of this account chain"))
 			return true
 		}},
 		{"DescendantBlocks-drop", func(b *nom.AccountBlock, e *c03Env) bool {
@@ -406,6 +446,14 @@ func c03Mutations() []c03Mut {
 	}
 }
 
+// c03Filler: an unsigned contract send of the token contract that takes b's place in b's account chain.
+func c03Filler(b *nom.AccountBlock) *nom.AccountBlock {
+	d := &nom.AccountBlock{Version: 1, ChainIdentifier: b.ChainIdentifier, BlockType: nom.BlockTypeContractSend, Address: types.TokenContract, ToAddress: b.Address,
+		Amount: big.NewInt(0), Height: b.Height, PreviousHash: b.PreviousHash, MomentumAcknowledged: b.MomentumAcknowledged}
+	d.Hash = d.ComputeHash()
+	return d
+}
+
 func c03Amt(b *nom.AccountBlock) *big.Int {
 	if b.Amount == nil {
 		return big.NewInt(0)
@@ -450,6 +498,7 @@ func c03Run(c *fw.C, caseID string) {
 	fmt.Sscanf(caseID, "camp:%d", &idx)
 	simnet.Setup()
 	c03PreEnforcement = idx%2 == 1
+	c03PathCounter = idx // the ingress path of an offer is a function of the case and the offer's position in it
 	if c03PreEnforcement {
 		verifier.ReceiverMismatchEnforcementHeight = 1 << 60
 	} else {
@@ -668,6 +717,19 @@ func c03FillEnv(e *c03Env, n *simnet.Node, b *nom.AccountBlock) {
 			break
 		}
 	}
+	// a confirmed send addressed to an embedded contract (recent momentums)
+	if H := n.Height(); H > 2 {
+		for h := H; h >= 2 && h+12 > H && e.ctrSend.IsZero(); h-- {
+			if d := n.Detailed(h); d != nil {
+				for _, x := range d.AccountBlocks {
+					if x.IsSendBlock() && types.IsEmbeddedAddress(x.ToAddress) && x.ToAddress != b.Address {
+						e.ctrSend = x.Hash
+						break
+					}
+				}
+			}
+		}
+	}
 	// a send this account has already received, and some other block hash of this account
 	as := st.GetAccountStore(b.Address)
 	if f, _ := as.Frontier(); f != nil {
@@ -704,22 +766,53 @@ func c03Offer(c *fw.C, N *simnet.Node, mb *nom.AccountBlock, kind, mutation, mod
 	}
 	var err error
 	panicked := ""
+	path := c03Paths[c03PathCounter%len(c03Paths)]
+	c03PathCounter++
+	var viaRPC *api.AccountBlock
+	if path == "rpc" {
+		// the block as a JSON-RPC client would submit it; a mutant the JSON form cannot carry travels by gossip instead
+		if data, jerr := json.Marshal(mb); jerr == nil {
+			viaRPC = new(api.AccountBlock)
+			if json.Unmarshal(data, viaRPC) != nil {
+				viaRPC = nil
+			}
+		}
+		if viaRPC == nil {
+			path = "gossip"
+			c.Count("mutants_not_expressible_as_rpc_json", 1)
+		}
+	}
 	func() {
 		defer func() {
 			if r := recover(); r != nil {
 				panicked = fmt.Sprint(r)
 			}
 		}()
-		err = N.Bridge.AddAccountBlocks([]*nom.AccountBlock{mb})
+		switch path {
+		case "gossip":
+			err = N.Bridge.AddAccountBlocks([]*nom.AccountBlock{mb})
+		case "rpc":
+			err = api.NewLedgerApi(&c03Zenon{N}).PublishRawTransaction(viaRPC)
+		case "sync":
+			// inside the next momentum, as a peer would serve it during sync: right height, link, slot and producer
+			// signature; the state hash cannot be right for a block the honest network never applied, so the momentum
+			// itself is refused in any case — the question is whether the block stays behind in the node
+			_, err = N.InsertChain([]*nom.DetailedMomentum{c03MomentumWith(N, mb)})
+		}
 	}()
 	c.Eval(1)
+	c.SetAdd("ingress_paths", path)
 	if panicked != "" {
-		c.Violation("gossip-path-panics "+kind+" "+mutation, map[string]interface{}{"model": model, "panic": panicked})
+		c.Violation(path+"-path-panics "+kind+" "+mutation, map[string]interface{}{"model": model, "panic": panicked})
 		return false
 	}
-	accepted := err == nil && N.Chain.GetPatch(mb.Address, mb.Identifier()) != nil
-	if mb.BlockType == nom.BlockTypeContractSend && err == nil {
-		accepted = false // AddAccountBlocks silently skips bare contract sends
+	stored := N.Chain.GetPatch(mb.Address, mb.Identifier()) != nil
+	accepted := err == nil && stored
+	if path == "sync" {
+		accepted = stored
+	}
+	if mb.BlockType == nom.BlockTypeContractSend && !stored {
+		accepted = false // a bare contract send is silently skipped on every path
 	}
 	outcome := "refused"
 	if accepted {
@@ -735,12 +828,13 @@ func c03Offer(c *fw.C, N *simnet.Node, mb *nom.AccountBlock, kind, mutation, mod
 		regime = "pre"
 	}
 	c.Distinct(fmt.Sprintf("%s/%s/%s/%s/%s", regime, kind, mutation, model, outcome))
+	c.SetAdd("paths_by_outcome", path+"/"+outcome)
 	if accepted {
 		c.Count("mutants_accepted", 1)
 		// clean N's pool: the pool lives in memory only
 		defer N.Restart()
 		if why != "" {
-			c.Violation(fmt.Sprintf("invalid-block-accepted %s-enforcement %s: %s", regime, kind, why), map[string]interface{}{"mutation": mutation, "attacker_model": model,
+			c.Violation(fmt.Sprintf("invalid-block-accepted %s-enforcement %s: %s", regime, kind, why), map[string]interface{}{"mutation": mutation, "attacker_model": model, "ingress_path": path,
 				"block_type": mb.BlockType, "address": mb.Address.String(), "height": mb.Height})
 			return false
 		}
@@ -756,4 +850,45 @@ func c03FuseData(beneficiary types.Address) []byte {
 
 func c03MintData(to types.Address) []byte {
 	return definition.ABIToken.PackMethodPanic(definition.MintMethodName, types.ZnnTokenStandard, big.NewInt(5), to)
+}
+
+// ---- ingress paths ---------------------------------------------------------------------------------
+
+var c03Paths = []string{"gossip", "rpc", "sync"}
+var c03PathCounter int
+
+// c03Zenon: zenon.Zenon over a simnet node for the real LedgerApi; the node is its own broadcaster (inserts the
+// transaction the way protocol.broadcaster does).
+type c03Zenon struct{ n *simnet.Node }
+
+func (z *c03Zenon) Init() error                         { return nil }
+func (z *c03Zenon) Start() error                        { return nil }
+func (z *c03Zenon) Stop() error                         { return nil }
+func (z *c03Zenon) Chain() chain.Chain                  { return z.n.Chain }
+func (z *c03Zenon) Consensus() consensus.Consensus      { return z.n.Cons }
+func (z *c03Zenon) Verifier() verifier.Verifier         { return z.n.Ver }
+func (z *c03Zenon) Protocol() *protocol.ProtocolManager { return nil }
+func (z *c03Zenon) Producer() pillar.Manager            { return nil }
+func (z *c03Zenon) Config() *zenon.Config               { return nil }
+func (z *c03Zenon) Broadcaster() protocol.Broadcaster   { return z.n }
+
+var _ zenon.Zenon = (*c03Zenon)(nil)
+
+// c03MomentumWith builds the momentum a dishonest (or merely relaying) peer would serve next: it extends N's frontier
+// in the next slot, lists mb (and its descendants) as content and is signed by the pillar elected for that slot.
+func c03MomentumWith(N *simnet.Node, mb *nom.AccountBlock) *nom.DetailedMomentum {
+	f := N.Frontier()
+	t := N.NextSlot(0)
+	group := append(append([]*nom.AccountBlock{}, mb.DescendantBlocks...), mb)
+	m := &nom.Momentum{Version: 1, ChainIdentifier: f.ChainIdentifier, PreviousHash: f.Hash, Height: f.Height + 1, TimestampUnix: uint64(t.Unix()),
+		Content: nom.NewMomentumContent(group), ChangesHash: types.NewHash([]byte("unknown"))}
+	m.EnsureCache()
+	m.Hash = m.ComputeHash()
+	if p, err := N.ProducerFor(t); err == nil && p != nil {
+		if kp := simnet.KeyFor(*p); kp != nil {
+			m.PublicKey = kp.Public
+			m.Signature = kp.Sign(m.Hash.Bytes())
+		}
+	}
+	return &nom.DetailedMomentum{Momentum: m, AccountBlocks: group}
 }
